@@ -2,18 +2,24 @@
    PROVED
    (1) error bound (for all strongly convex QPs, all boxes C and D incl. infinite/equal sides, all dimensions):
      an approximate KKT pair (x, y) with tolerances (ε, δ) — which is what `Converged` certifies, see C01 — satisfies
-        mu ||x - xs||^2 <= eps ||x - xs||_1 + delta ||y - ys||_1       against the exact KKT pair (xs, ys).
+        mu ||x - xs||^2 <= eps ||x - xs||_1 + delta ||y - ys||_1       against the exact KKT pair (xs, ys).      [C02_qp_error_bound]
    (2) LIVENESS of the inner solvers PANOC and ZeroFPR stand-alone (their whole-loop models Panoc.v / ZeroFpr.v, which whole-run
-     correspondence ties to the C++), over R, for EVERY direction provider (arbitrary values, failures at will), on box-constrained
-     problems whose cost has a global quadratic upper bound with constant Lf <= L_max and is bounded below on C
-     (every convex QP with bounded-below cost on C is one): the run returns Converged after fewer than N iterations, N explicit
-     (C02_panoc_returns_converged[_explicit_N], C02_zerofpr_returns_converged[_explicit_N]), at an ε-fixed point of the
-     projected-gradient map (C02_panoc_converged_point).  Hypotheses: coherent oracles, tolerance factors 0, force_linesearch off,
-     criterion ProjGradNorm[2] / FPRNorm[2], no stop request / time-out, iteration and fuel limits above the bound.
-   NOT PROVED (explored on the implementation by the check's oracle): liveness of the OUTER ALM loop and of PANTR / FISTA, liveness under
-     the ApproxKKT criterion (needs a Lipschitz hypothesis on ∇ψ to bound the gradient-difference term), the effect of binary64 rounding,
-     and positive tolerance factors (strict descent is lost).  The missing link for the full property remains `stack_reaches_converged`
-     for those stacks. *)
+     correspondence ties to the C++), over R, for EVERY direction provider (arbitrary values, failures at will; only the dimension of
+     the returned vector is assumed), on box-constrained problems whose cost has a global quadratic upper bound with constant
+     Lf <= L_max and is bounded below on C: the run returns Converged after fewer than N iterations, N explicit
+       PANOC,   criteria ProjGradNorm[2] / FPRNorm[2]:            C02_panoc_returns_converged, ..._explicit_N, C02_panoc_converged_point
+       PANOC,   default criterion ApproxKKT (∇ψ Lipschitz, Lg):   C02_panoc_returns_converged_ApproxKKT
+       ZeroFPR, criteria ProjGradNorm[2] / FPRNorm[2]:            C02_zerofpr_returns_converged
+     NoProgress is EXCLUDED (not assumed away): x_{k+1} = x_k at a completed iteration forces p_k = 0 by monotonicity of the envelope in γ,
+     which the stop check would have reported as Converged.  No hypothesis on max_no_progress, eager evaluation,
+     recompute_last_prox_step_after_stepsize_change, update_direction_in_candidate, always_overwrite_results.
+   (3) END TO END for PANOC stand-alone on box-constrained strongly convex QPs (m = 0), default criterion: Converged within N iterations
+     AND mu ||x̂ - x*||^2 <= tol ||x̂ - x*||_1.                                                    [C02_panoc_qp_converges_near_minimiser]
+   Hypotheses of (2),(3), all visible in the statements: coherent problem oracles; tolerance factors of the QUB and line-search tests
+     equal to 0 (with positive factors strict descent is lost); force_linesearch off; no stop request / time-out; max_iter >= N, fuel.
+   NOT PROVED (explored on the implementation by the check's oracle): liveness of the OUTER ALM loop and of PANTR / FISTA; ZeroFPR under
+     ApproxKKT; positive tolerance factors; the effect of binary64 rounding (the theorems are over R).  For those stacks the missing
+     link remains `stack_reaches_converged`. *)
 From Coq Require Import Reals List ZArith Bool Lra Lia.
 From Flocq Require Import Raux.
 From Alpaqa Require Import Num NumR Vec Prox ProxProofs ProxVec QpBound SolverStatus SolverKernels DescentProofs StopChain StopChainProofs
